@@ -70,6 +70,9 @@ class C05Monitor(Monitor):
         self._req_seen = 0
         self._req_by = {}
         self.t_def = None
+        self._prec_seen = 0
+        self._prec_hit = False
+        self._prec_unknown = False
         self.last_ran = {}  # id(deme) -> last step in which it requested evaluations during the metaepoch phase
         self.keep = []
 
@@ -163,10 +166,35 @@ class C05Monitor(Monitor):
                 tot += wts[d._level] * self._evals_of(d)
             return tot >= g["limit"]
         if k == "precision":
-            for layer in w.stacks[int(g.get("stack", 0))]["layers"]:
-                if type(layer).__name__ == "PrecisionCutoffProblem":
-                    return bool(layer.hit_precision)
-            return None
+            # from the simulator's own record of the values the objective returned on that stack, not from the
+            # wrapper's flag: "some evaluated point came within eps of the optimum value"
+            si = int(g.get("stack", 0))
+            spec = next((l for l in w.plan["stacks"][si]["layers"] if l["kind"] == "precision"), None)
+            if spec is None or w.plan.get("stack_objectives") or any(
+                    l["kind"] == "mirror" for l in w.plan["stacks"][si]["layers"]):
+                for layer in w.stacks[si]["layers"]:
+                    if type(layer).__name__ == "PrecisionCutoffProblem":
+                        return bool(layer.hit_precision)
+                return None
+            opt, eps = float(spec["opt"]), float(spec["eps"])
+            ls = w.plan["level_stack"]
+            reqs = w.requests
+            i = self._prec_seen
+            while i < len(reqs) and not self._prec_hit:
+                r = reqs[i]
+                if r.value is None:
+                    break
+                if r.level is not None and 0 <= r.level < len(ls) and ls[r.level] == si and r.invoked:
+                    if abs(float(r.value) - opt) <= eps:
+                        self._prec_hit = True
+                elif r.level is None or r.level < 0:
+                    self._prec_unknown = True
+                i += 1
+            self._prec_seen = i
+            if self._prec_unknown and not self._prec_hit:
+                return None
+            w.probe("c05-precision-reference-from-record")
+            return self._prec_hit
         if k == "root_stopped":
             return not tree.root._active
         if k == "all_stopped":
